@@ -22,7 +22,7 @@ import re
 
 from rslex import lex, texts, find_item
 
-REPO_SRC = os.environ.get('VERIF_REPO_SRC', '/repo/wgsl_to_wgpu/src')
+REPO_SRC = os.environ.get('VERIF_REPO_SRC', os.path.join(os.environ.get('VERIF_REPO', '/repo'), 'wgsl_to_wgpu', 'src'))
 
 INS_O, INS_C, OLD_O, OLD_C = '«', '»', '‹', '›'
 
